@@ -44,6 +44,18 @@ CHECKS = {
              "real query); counterexamples are replayed on a real database built from the graph.",
         technique="CrossHair symbolic execution (z3) over symbolic adjacency matrices vs. graph-theoretic oracle",
         ref='4 C13'),
+    'C14': dict(
+        text="Structure level: bounded symbolic model checking of the real similarity.path/wup (and the "
+             "taxonomy functions below them) on all DAGs on 4 nodes and on template graphs with symbolic "
+             "chain lengths, against the documented formulas; pos compatibility of all six metrics with "
+             "symbolic pos strings. Formula level: the bodies of lch/res/jcn/lin are translated from "
+             "their AST into z3 terms and symmetry, special cases, bounds and absence of division by zero "
+             "are discharged as unsat queries (cross-checked with cvc5), unbounded in the numeric values.",
+        note=NOTE_COMMON + "math.log is uninterpreted (ground monotonicity instances); reals for floats; "
+             "distance/LCS/IC enter the formula level as symbolic values constrained by what C13/C15 "
+             "establish.",
+        technique="CrossHair symbolic execution on symbolic graphs + z3/cvc5 queries over AST-translated formulas",
+        ref='4 C14'),
     'C15': dict(
         text="Bounded symbolic model checking of the real wn.ic.compute / synset_probability / load: every "
              "labelled digraph on 3 nodes (cycles, convergent paths in any listing order), symbolic word "
